@@ -144,7 +144,24 @@ def make_form(rng, i):
             rows.append(Row("q", rng.choice(["xml-external", "csv-external"]), rng.choice(["extdata", "lookup", "cities"]) + str(k % 2), {}))
         elif x < 0.8:
             fnm = rng.choice(["fruits", "cities", "prices"])
-            rows.append(Row("q", "calculate", nm, {"calculation": f"pulldata('{fnm}', 'a', 'b', ${{seedq}})"}))
+            if rng.random() < 0.5:
+                rows.append(Row("q", "calculate", nm, {"calculation": f"pulldata('{fnm}', 'a', 'b', ${{seedq}})"}))
+            else:
+                # one row calling pulldata() from several of its cells, each naming another file: every file needs its instance
+                files = rng.sample(["fruits", "cities", "prices", "previous", "planned", "stock"], rng.randint(2, 4))
+                cols = rng.sample(["choice_filter", "default", "relevant", "constraint", "required", "read_only", "calculation"], len(files))
+                free = [x_ for x_ in lists if x_ not in search_lists]
+                is_sel = "choice_filter" in cols and free
+                cells = {"label": f"q {nm}"}
+                for c_, f_ in zip(cols, files):
+                    if c_ == "choice_filter" and not is_sel:
+                        c_ = "relevant" if "relevant" not in cols else "constraint"
+                    cells[c_] = f"pulldata('{f_}', 'a', 'b', ${{seedq}})" + (" != ''" if c_ not in ("default", "calculation") else "")
+                if is_sel:
+                    ln_ = rng.choice(free)
+                    rows.append(Row("q", f"select_one {ln_}", nm, cells, meta={"list": ln_, "select": "select_one"}))
+                else:
+                    rows.append(Row("q", "text", nm, cells))
         elif x < 0.85:
             rows.append(Row("q", "text", nm, {"label": f"q {nm}", "default": "${last-saved#seedq}"}))
         elif x < 0.92 and not ext_used:
@@ -237,6 +254,20 @@ def check(ctx, form, sig, sample=False):
             row.update(items)
         ctx.ctr("dict_rows_in_other_key_order")
         o = drive.call_convert(wb, **form.args)
+    elif form.meta.get("spacer"):
+        # a spreadsheet whose choices / external_choices header row has blank cells between the headers (spacer columns): every cell stays under its header
+        import random as _r
+        fmt, sd = form.meta["spacer"]
+        rr = _r.Random(sd)
+        sp = dict(sheets)
+        for shn in ("choices", "external_choices"):
+            if shn in sp:
+                h, rows_ = sp[shn]
+                at = rr.randint(1, len(h) - 1) if len(h) > 2 else len(h) - 1
+                k = rr.choice([1, 1, 2])
+                sp[shn] = (h[:at] + [None] * k + h[at:], [r_[:at] + [None] * k + r_[at:] for r_ in rows_])
+        ctx.ctr(f"spacer_columns:{fmt}")
+        o = drive.convert_sheets(sp, fmt=fmt, args=form.args)
     else:
         o = drive.convert_sheets(sheets, args=form.args)
     wit = lambda **kw: common.witness(form, sheets_md=common.sheets_to_md(sheets)[:3000], **kw)  # noqa: E731
@@ -472,6 +503,8 @@ def run_shard(ctx):
             continue
         rng = ctx.rng("case", i)
         form = make_form(rng, i)
+        if i % 6 == 2 and not form.meta.get("dict_key_order"):
+            form.meta["spacer"] = (rng.choice(["xlsx", "xls"]), i)
         check(ctx, form, common.feature_sig(form, extra=(form.meta.get("interleave"),)), sample=(i < 2))
 
 
